@@ -17,6 +17,11 @@ pub enum Mode {
     /// Graceful with a short timeout; the gate of client 0's first request is never opened.
     Short,
     Forced,
+    /// Graceful with `Duration::MAX`: an effectively unbounded timeout; every gate gets opened.
+    /// Same expected behaviour as `Generous` (the timeout arithmetic must not overflow).
+    Unbounded,
+    /// Graceful with `Duration::from_secs(u64::MAX / 4)`; every gate gets opened.
+    Huge,
 }
 
 #[derive(Clone, Copy, PartialEq, Eq, Hash, Debug, Serialize, Deserialize, PartialOrd, Ord)]
